@@ -324,3 +324,51 @@ func ZZ_C11_roundsAfterFaults() {
 	nondet.Reach("C11.rounds.several-faults", faults >= 2)
 	nondet.Reach("C11.rounds.no-fault", faults == 0)
 }
+
+// ZZ_C11_labelCleanupAfterFaults: "Subsequent failure-free reconciliation then converges to the
+// same final pods": the first sync of a just-promoted replica set (its former canary pod still
+// carries the canary label; conditions as the canary phase left them) with every read and write
+// failing or not, independently; then three failure-free syncs one minute apart.  In the end the
+// pod carries no canary label any more, as in the failure-free run.
+func ZZ_C11_labelCleanupAfterFaults() {
+	c, ds, rsNew, _ := zzStore(2)
+	ds.Spec.Strategy.Canary = &datadoghqv1alpha1.ExtendedDaemonSetSpecStrategyCanary{}
+	datadoghqv1alpha1.DefaultExtendedDaemonSetSpec(&ds.Spec, datadoghqv1alpha1.ExtendedDaemonSetSpecStrategyCanaryValidationModeAuto)
+	ds.Status.ActiveReplicaSet = rsNew.Name // just promoted
+	ds.Status.Canary = nil
+	p := zzPod("canary-pod", zzNodeName(0), zzRSName, zzHashNew, 0, corev1.PodRunning, true, nondet.Base().Add(-600*1e9))
+	p.Labels[datadoghqv1alpha1.ExtendedDaemonSetReplicaSetCanaryLabelKey] = datadoghqv1alpha1.ExtendedDaemonSetReplicaSetCanaryLabelValue
+	c.Pods = append(c.Pods, p)
+	c.Pods = append(c.Pods, zzPod("new-pod-node1", zzNodeName(1), zzRSName, zzHashNew, 0, corev1.PodRunning, true, nondet.Base().Add(-300*1e9)))
+	at := metav1.NewTime(nondet.Base().Add(-600 * 1e9))
+	rsNew.Status.Status = "canary"
+	rsNew.Status.Conditions = append(rsNew.Status.Conditions,
+		datadoghqv1alpha1.ExtendedDaemonSetReplicaSetCondition{Type: datadoghqv1alpha1.ConditionTypeCanary, Status: corev1.ConditionTrue, LastTransitionTime: at, LastUpdateTime: at},
+		datadoghqv1alpha1.ExtendedDaemonSetReplicaSetCondition{Type: datadoghqv1alpha1.ConditionTypeActive, Status: corev1.ConditionFalse, LastTransitionTime: at, LastUpdateTime: at})
+	rec := zzReconciler(c, false)
+	c.InjectFaults, c.InjectReadFaults = true, true
+	_, _ = zzReconcile(rec, zzNS, zzRSName)
+	c.InjectFaults, c.InjectReadFaults = false, false
+	faults := 0
+	for _, e := range c.Log {
+		if e.Failed {
+			faults++
+		}
+	}
+	for i := 0; i < 3; i++ {
+		zzKubelet(c) // one minute passes
+		_, err := zzReconcile(rec, zzNS, zzRSName)
+		nondet.Assert("C11.label.recovery-ok", err == nil)
+	}
+	labelled := false
+	for _, q := range c.Pods {
+		if _, has := q.Labels[datadoghqv1alpha1.ExtendedDaemonSetReplicaSetCanaryLabelKey]; has {
+			labelled = true
+		}
+	}
+	nondet.Assert("C11.label.removed-in-the-end", !labelled)
+	nondet.Assert("C11.label.pods-kept", len(c.Pods) == 2)
+	nondet.Observe("labelled", labelled)
+	nondet.Reach("C11.label.a-call-failed", faults >= 1)
+	nondet.Reach("C11.label.no-fault", faults == 0)
+}
